@@ -22,3 +22,8 @@ package types
 // verif:func UnpackHeader
 //@ names [from-any]   result1 == nil ==> marshalable(result)
 //@ ensures [non-nil]  result1 == nil ==> result != nil
+
+// ---- heights are ordered lexicographically by (revision number, revision height) (C07-C10 rely on it) ----
+// (a height of another implementation makes Compare panic; only clienttypes.Height implements exported.Height)
+// verif:func (Height).Compare
+//@ ensures [lexicographic] result == ite(h.RevisionNumber != as(other, Height).RevisionNumber, ite(h.RevisionNumber < as(other, Height).RevisionNumber, -1, 1), ite(h.RevisionHeight < as(other, Height).RevisionHeight, -1, ite(h.RevisionHeight == as(other, Height).RevisionHeight, 0, 1)))
